@@ -240,7 +240,7 @@ fn observe(st: &GraphStore, cap: u64, universe: &[String], with_probes: bool) ->
     let engine = QueryEngine::new();
     let mut probes = Map::new();
     for l in LABELS.iter().filter(|_| with_probes) {
-        let mut by: Vec<u64> = st.get_nodes_by_label(&samyama::graph::Label::new(l)).iter().map(|n| n.id.as_u64()).collect();
+        let mut by: Vec<u64> = st.get_nodes_by_label(&samyama::graph::Label::new(*l)).iter().map(|n| n.id.as_u64()).collect();
         by.sort();
         probes.insert(format!("label:{l}"), json!(by));
         probes.insert(format!("scan:{l}"), rows_of(&engine, st, &format!("MATCH (n:{l}) RETURN id(n)")));
